@@ -1172,7 +1172,19 @@ func (m *membersPool) Set(member Member) (added bool) {
 func (m *membersPool) Remove(k *net.UDPAddr) (bool, error) {
 	return m.addrs.Remove(memberid(k), func(i Member, found bool) error {
 		if found {
-			_ = m.members.RemoveValue(i.Address().String())
+			id := memberid(k)
+
+			// NOTE removes only the left member from the node list
+			_, _, _, _ = m.members.SetOrRemove(
+				i.Address().String(),
+				func(members []Member, _ bool) ([]Member, bool, error) {
+					filtered := util.FilterSlice(members, func(n Member) bool {
+						return memberid(n.Addr()) != id
+					})
+
+					return filtered, len(filtered) < 1, nil
+				},
+			)
 		}
 
 		return nil
